@@ -76,6 +76,8 @@ def judge(cfg, idx, obs, stats=None):
     mk = s1.method_key(cfg)
     if obs["exc"] is not None or obs["hist"] is None:
         return []  # C11's business
+    if obs.get("int_differs"):
+        return [(f"C12|{mk}|integer-typed-sample", f"{mk}: the same whole-number sample gives a different history when passed as an integer array")]
     g = s1.grid(cfg)
     xs = [g[i] for i in idx]
     refs = reference(cfg, xs, obs)
